@@ -8,3 +8,18 @@ let () =
     let names = List.filter (fun x -> x <> "") (String.split_on_char ',' (get f "names")) in
     Printf.printf "gosel %d sel=%s\n" idx
       (String.concat "," (List.map (fun nh -> nh ^ ":" ^ (if go_selects pat (unhex nh) then "1" else "0")) names)))
+
+(* skiprun / fileskip: go-snaps' own -run decisions (Model/RunFilter.v), compared with the library's testSkipped / isFileSkipped *)
+let hexlist s = if s = "~" || s = "" then [] else List.map unhex (String.split_on_char ',' s)
+
+let () =
+  register "skiprun" (fun idx f ->
+    let pat = unhex (get f "pat") in
+    let skipped = hexlist (get f "skipped") in
+    let ids = if get f "ids" = "~" then [] else String.split_on_char ',' (get f "ids") in
+    let res = List.map (fun ih -> ih ^ ":" ^ (if test_skipped_run skipped pat (unhex ih) then "1" else "0")) ids in
+    Printf.printf "skiprun %d res=%s\n" idx (if res = [] then "~" else String.concat "," res));
+  register "fileskip" (fun idx f ->
+    let pat = unhex (get f "pat") in
+    let funcs = if get f "sibling" = "1" then Some (hexlist (get f "funcs")) else None in
+    Printf.printf "fileskip %d res=%s\n" idx (if file_skipped_run pat funcs then "1" else "0"))
